@@ -8,7 +8,11 @@ Role B: every script assignment of the model drives the scripted fake plugin
 verifhook package: pipes, reaping observable) and through the real thriftrw binary.
 Role C: C16Trace.tla judges per-plugin event logs, reaping, failure and naming.
 Frames under arbitrary segmentation: Frame conformance cases (1-byte writes,
-truncation at every offset, oversize prefix)."""
+truncation at every offset, oversize prefix).
+The plugin side: PluginLib.tla (the Serve loop of a plugin built with the library, the
+host as environment sending any request sequence or closing stdin; negative control =
+a Stop() that also closes the writer); its finished runs drive a real plugin built with
+plugin.Main (harness/cmd/libplugin) from a hand-written host; C16LibTrace.tla."""
 import json, os, random
 import vlib
 
@@ -79,6 +83,49 @@ def run_cases(ctx, drv, fake, thriftrw, cases, module="C16Trace", canary_fn=cana
     return rows
 
 
+def lib_canary(row, rng):
+    if row.get("op") != "c16lib" or not row["replies"]:
+        return None
+    k = rng.choice(["drop", "ty", "seq"])
+    if k == "drop":
+        row["replies"] = row["replies"][:-1]
+    elif k == "ty":
+        row["replies"][0]["ty"] = 5 - row["replies"][0]["ty"]
+    else:
+        row["replies"][-1]["seq"] += 1
+    return row
+
+
+def library_side(ctx, drv):
+    """PluginLib.tla: the plugin library's side of the protocol; its finished runs drive a real plugin built with plugin.Main."""
+    import c06
+    lib = vlib.build_harness_cmd(ctx, "./cmd/libplugin", "libplugin")
+    r = vlib.model_check(ctx, "PluginLib", "MCPluginLib%s.cfg" % ("" if ctx.quick() else "_thorough"), timeout=1500, workers=8)
+    neg = vlib.tlc(ctx, "PluginLib", "MCPluginLib_negctl.cfg", timeout=600, allow_error=True)
+    if "Invariant OneReplyPerRequest is violated" not in neg["out"]:
+        raise vlib.Inconclusive("negative control failed: a Stop() that closes the writer still answers goodbye in PluginLib.tla")
+    ctx.notes.append("negative control: PluginLib.tla with StopClosesWriter = TRUE violates OneReplyPerRequest (as expected)")
+    cases = c06.parse_cases(r["out"])
+    if len(cases) < 100:
+        raise vlib.Inconclusive("PluginLib.tla emitted %d cases" % len(cases))
+    for i, c in enumerate(cases):
+        c["id"] = "lib%d" % i
+    d = ctx.dir("c16lib")
+    cf, of = os.path.join(d, "cases.ndjson"), os.path.join(d, "obs.ndjson")
+    vlib.write_ndjson(cf, cases)
+    vlib.run([drv, "c16lib", "-cases", cf, "-out", of, "-libplugin", lib], timeout=3000, check=True)
+    rows = vlib.read_ndjson(of)
+    ctx.evals += len(rows)
+    bad, drift = vlib.validate_trace(ctx, "C16LibTrace", rows, canary=lib_canary, shard=3000, timeout=3000)
+    for row, why in bad:
+        vlib.report_failure(ctx, row, {"failed": why, "id": row.get("id"), "script": row["case"]["script"], "gen": row["case"]["gen"],
+                                       "replies": [[x["name"], x["ty"]] for x in row["replies"]], "exit": row["exit"]}, case=row["case"])
+    for row, why in drift:
+        ctx.drift.append({"id": row.get("id"), "script": row["case"]["script"], "exit": row["exit"], "model_predicates": why})
+    ctx.cov["library_plugin_scripts"] = len(rows)
+    return rows
+
+
 def run(ctx):
     tier = "quick" if ctx.quick() else "thorough"
     drv, fake, thriftrw = build_bins(ctx)
@@ -132,7 +179,23 @@ def run(ctx):
         cases.append(expand({"id": "onebyte-all", "plugins": [{"name": "p1", "hs": "ok", "gen": "ok", "bye": "ok"},
                                                                {"name": "p2", "hs": "nofeature", "gen": "ok", "bye": "ok"}]},
                             "cli", rng, onebyte=True))
-    rows = run_cases(ctx, drv, fake, thriftrw, cases)
+    librows = []
+    if ctx.replay and cases[0].get("script") is not None:
+        # a replayed library-side case
+        lib = vlib.build_harness_cmd(ctx, "./cmd/libplugin", "libplugin")
+        d = ctx.dir("c16lib")
+        cf, of = os.path.join(d, "cases.ndjson"), os.path.join(d, "obs.ndjson")
+        vlib.write_ndjson(cf, cases)
+        vlib.run([drv, "c16lib", "-cases", cf, "-out", of, "-libplugin", lib], timeout=600, check=True)
+        librows = vlib.read_ndjson(of)
+        ctx.evals += len(librows)
+        bad, _ = vlib.validate_trace(ctx, "C16LibTrace", librows, canary=None, shard=3000, timeout=600)
+        for row, why in bad:
+            vlib.report_failure(ctx, row, {"failed": why, "id": row.get("id"), "script": row["case"]["script"]}, case=row["case"])
+        cases = []
+    elif not ctx.replay:
+        librows = library_side(ctx, drv)
+    rows = run_cases(ctx, drv, fake, thriftrw, cases) if cases else []
     ctx.cov["distinct_nontrivial"] = vlib.distinct_count(rows, lambda r: (r["mode"], [[p["hs"], p["gen"], p["bye"]] for p in r["case"]["plugins"]]))
     ctx.cov["runs_failed"] = sum(1 for r in rows if r["failed"])
     ctx.cov["runs_ok"] = sum(1 for r in rows if not r["failed"])
